@@ -293,7 +293,8 @@ def compare_after_history(cfg_or_path, history: List[Any], fresh_resets: int, la
     return out
 
 
-def dirty_history(cfg_or_path, rng: Rng, n_dirty: int, n_later: int, dirty_episodes: int, seeds: List[Optional[int]], make: Callable = None) -> dict:
+def dirty_history(cfg_or_path, rng: Rng, n_dirty: int, n_later: int, dirty_episodes: int, seeds: List[Optional[int]], make: Callable = None,
+                  extra_history: Optional[List[int]] = None, extra_later: Optional[List[int]] = None) -> dict:
     """A used environment (dirty_episodes episodes of generated actions, the last one cut mid-episode); then, for EVERY seed argument in
     `seeds` in turn (each compared episode is part of the dirty history of the next): `reset(seed)` + generated actions on the used
     environment against a fresh environment that has been reset equally often. Returns the per-seed results and the first difference."""
@@ -307,7 +308,9 @@ def dirty_history(cfg_or_path, rng: Rng, n_dirty: int, n_later: int, dirty_episo
             s = rng.below(2 ** 31)
             used.reset(seed=s)
             history.append(("reset", s))
-        for a in gen_actions(rng.fork(f"dirty{ep}"), n_dirty, space, 8):
+        # `extra_history`: actions every dirty episode ends with (e.g. scans of SEVERAL networks); `extra_later`: actions every compared
+        # episode ends with (the scan of one of them alone) - pairs whose second member must not depend on the first having happened
+        for a in gen_actions(rng.fork(f"dirty{ep}"), n_dirty, space, 8) + list(extra_history or []):
             used.step(a)
             history.append(("step", a))
     old_game = used.game
@@ -329,7 +332,8 @@ def dirty_history(cfg_or_path, rng: Rng, n_dirty: int, n_later: int, dirty_episo
     fresh = None
     resets = dirty_episodes - 1
     for mi, seed in enumerate(seeds):
-        later = [("reset", seed)] + [("step", a) for a in gen_actions(rng.fork(f"later{mi}"), n_later if mi == 0 else max(4, n_later // 2), space)]
+        later = [("reset", seed)] + [("step", a) for a in gen_actions(rng.fork(f"later{mi}"), n_later if mi == 0 else max(4, n_later // 2), space)
+                                     + list(extra_later or []) + (list(extra_history or []) if mi + 1 < len(seeds) else [])]
         saved = save_rng() if seed is None else None
         t_used = run_ops(used, later, Canon(), with_rng=True)
         after_used = save_rng()
@@ -745,6 +749,10 @@ def reachable(root: Any, limit: int = 2_000_000) -> Dict[int, Any]:
         if isinstance(o, (types.WrapperDescriptorType, types.MethodWrapperType, types.MethodDescriptorType, property, classmethod, staticmethod)):
             continue
         seen[id(o)] = o
+        if hasattr(o, "cache_info") and hasattr(o, "__wrapped__"):
+            # a functools.lru_cache / cache wrapper: what it has cached is state of the wrapper (visible to the collector only)
+            import gc
+            stack.extend(x for x in gc.get_referents(o) if isinstance(x, (list, dict)))
         if isinstance(o, dict):
             stack.extend(o.keys())
             stack.extend(o.values())
